@@ -2164,9 +2164,7 @@ class sptensor:
             # Extract the subdimensions to be extracted from self
             region = []
             for dim, value in enumerate(item):
-                if isinstance(value, (int, np.integer)) and value < 0:
-                    value = self.shape[dim] + value  # noqa: PLW2901
-                region.append(value)
+                region.append(_wrap_region_entry(value, dim, self.shape))
 
             # Pare down the list of subscripts (and values) to only
             # those within the subdimensions specified by region.
@@ -2375,9 +2373,7 @@ class sptensor:
         if access_type == IndexVariant.SUBTENSOR:
             updated_key = []
             for dim, entry in enumerate(key):
-                if isinstance(entry, (int, np.integer)) and entry < 0:
-                    entry = self.shape[dim] + entry  # noqa: PLW2901
-                updated_key.append(entry)
+                updated_key.append(_wrap_region_entry(entry, dim, self.shape))
             return self._set_subtensor(updated_key, value)
         # Case 2: Subscripts
         if access_type == IndexVariant.SUBSCRIPTS:
@@ -3746,6 +3742,23 @@ class sptensor:
         if return_inverse:
             return squashed_tensor, idx_map
         return squashed_tensor
+
+
+def _wrap_region_entry(entry, dim: int, shape):
+    """Negative indices of a region key count from the end (numpy semantics)."""
+    if isinstance(entry, (int, np.integer)):
+        if entry < 0:
+            if dim >= len(shape) or entry < -shape[dim]:
+                raise IndexError(f"index {entry} is out of bounds for mode {dim}")
+            entry = shape[dim] + entry
+    elif not isinstance(entry, slice) and isinstance(entry, Iterable):
+        idx = np.asarray(entry)
+        if idx.size > 0 and np.issubdtype(idx.dtype, np.integer) and (idx < 0).any():
+            if dim >= len(shape) or (idx < -shape[dim]).any():
+                raise IndexError(f"index list {entry} is out of bounds for mode {dim}")
+            idx = np.where(idx < 0, idx + shape[dim], idx)
+            entry = idx.tolist() if isinstance(entry, list) else idx
+    return entry
 
 
 def sptenrand(
